@@ -20,6 +20,7 @@ BUid(b)   == CASE b = 1 -> "u1" [] b = 2 -> "u1" [] b = 3 -> "u2"
                  [] b = 7 -> "u3" [] OTHER -> ""
 BKind(b)  == IF b \in {5, 6} THEN "vcf" ELSE "ics"
 NKind(n)  == IF n = "c.vcf" THEN "vcf" ELSE "ics"
+DefaultKind(c) == IF c = "cal1" THEN "calendar" ELSE IF c = "ab1" THEN "addressbook" ELSE ""
 PropOK(k, p) ==
     CASE p = "displayname" -> TRUE
       [] p = "color"       -> k \in {"calendar", "addressbook"}
@@ -109,10 +110,13 @@ Proppatch(c, ins) ==
          THEN resp' = "refused" /\ UNCHANGED <<st, hist>>      \* per-property refusal
          ELSE Apply(ProppatchOutcome(st, [c |-> c, ins |-> done]), c)
 
-Restart ==
-    /\ rq' = [op |-> "Restart"]
+Restart(defaults) ==
+    /\ rq' = [op |-> "Restart", defaults |-> defaults]
     /\ resp' = "ok"
-    /\ UNCHANGED <<st, hist>>
+    /\ LET o == RestartOutcome(st, defaults)
+           new == DOMAIN o.st.colls \ DOMAIN st.colls IN
+       /\ st' = o.st
+       /\ hist' = [c \in DOMAIN hist \cup new |-> IF c \in new THEN <<Snapshot(o.st, c)>> ELSE hist[c]]
 
 Next ==
     \/ \E c \in Coll, n \in Name, b \in Body :
@@ -123,7 +127,7 @@ Next ==
     \/ \E c \in Coll, k \in Kinds : Mk(c, k)
     \/ \E c \in Coll : DeleteColl(c)
     \/ \E c \in Coll, ins \in InstrSeqs : Proppatch(c, ins)
-    \/ Restart
+    \/ \E d \in BOOLEAN : Restart(d)
 
 Spec == Init /\ [][Next]_vars
 
@@ -177,6 +181,16 @@ FrameOther ==
                       /\ (n \in DOMAIN st.store[c]) = (n \in DOMAIN st'.store[c])
                       /\ n \in DOMAIN st.store[c] => st'.store[c][n] = st.store[c][n])
           /\ (st'.props[c] # st.props[c] => rq'.op = "Proppatch" /\ rq'.c = c)]_vars
+
+\* C01/C18: a restart leaves every existing collection exactly as it is; with --defaults it
+\* only adds the missing default collections, empty
+StartPreserves ==
+    [][rq'.op = "Restart" =>
+         /\ \A c \in DOMAIN st.colls :
+               /\ c \in DOMAIN st'.colls /\ st'.colls[c] = st.colls[c]
+               /\ st'.store[c] = st.store[c] /\ st'.props[c] = st.props[c] /\ hist'[c] = hist[c]
+         /\ \A c \in DOMAIN st'.colls \ DOMAIN st.colls :
+               rq'.defaults /\ st'.colls[c] = DefaultKind(c) /\ st'.store[c] = EmptyFn]_vars
 
 \* C09: history is append-only, one snapshot per change, none for no-ops
 AppendOnly ==
